@@ -6,6 +6,7 @@ import (
 	"database/sql"
 	"path"
 	"path/filepath"
+	"strconv"
 	"strings"
 
 	"github.com/pojntfx/stfs/internal/converters"
@@ -97,6 +98,10 @@ func (o *Operations) Move(from string, to string) error {
 
 		// The header might come from a foreign archive in another format, which can't hold the STFS records
 		hdr.Format = tar.FormatPAX
+		if _, ok := hdr.PAXRecords[records.STFSRecordUncompressedSize]; !ok && hdr.FileInfo().Mode().IsRegular() {
+			// Keep the size of entries which don't carry it yet (i.e. members of archives written by another tar writer)
+			hdr.PAXRecords[records.STFSRecordUncompressedSize] = strconv.Itoa(int(hdr.Size))
+		}
 		hdr.Size = 0 // Don't try to seek after the record
 		hdr.Name = path.Join(to, strings.TrimPrefix(strings.TrimPrefix(dbhdr.Name, "/"), strings.TrimPrefix(from, "/")))
 		if hdr.FileInfo().Mode().IsRegular() {
